@@ -111,6 +111,9 @@ func (p *Path) yield(what string) {
 		return
 	}
 	cur := s.cur
+	if p.preemptions >= p.preemptBound {
+		return // context bound reached: no further preemption of a runnable goroutine
+	}
 	cands := s.runnable(nil)
 	if len(cands) <= 1 {
 		return
@@ -127,7 +130,35 @@ func (p *Path) yield(what string) {
 	if next == cur {
 		return
 	}
+	p.preemptions++
 	p.transfer(cur, next)
+}
+
+// syncInternal reports whether the atomic/mutex operation executing in fr is issued by the
+// implementation of package sync itself (sync.Map, sync.Once, ...): those are treated as
+// invisible steps of a linearizable library operation.
+func syncInternal(fr *frame) bool {
+	for c := fr.caller; c != nil; c = c.caller {
+		if c.fn.Pkg == nil {
+			if o := c.fn.Origin(); o != nil && o.Pkg != nil {
+				switch o.Pkg.Pkg.Path() {
+				case "sync/atomic":
+					continue
+				case "sync":
+					return true
+				}
+			}
+			return false
+		}
+		switch c.fn.Pkg.Pkg.Path() {
+		case "sync/atomic":
+			continue
+		case "sync":
+			return true
+		}
+		return false
+	}
+	return false
 }
 
 // transfer hands the baton from cur to next and waits until cur is resumed.
